@@ -581,10 +581,10 @@ class Checker:
     def phase_hashctx(self, atlas):
         oplist = self.corpus(atlas)
         hs = seeds.Streams(seeds.h64(self.root, "hashctx")).get("hashseed")
-        seedlist = [0, 1, 4294967295]
+        seedlist = [0, 0, 1, 4294967295]  # seed 0 twice: same seed, other process (addresses)
         while len(seedlist) < self.cfg["ctx"]:
             v = hs.randrange(0, 4294967296)
-            if v not in seedlist:
+            if v not in seedlist:  # noqa
                 seedlist.append(v)
         self.hash_seeds = seedlist
         self.ctx_done = 0
@@ -628,6 +628,17 @@ class Checker:
             elif od != first[1]:
                 return first[0], h
         return None
+
+    def process_variation(self, op, hashseed, n=16):
+        outs = [None] * n
+
+        def got(i, job, res):
+            outs[i] = res[0] if isinstance(res, list) else None
+
+        forkpool.run_jobs([(hashseed, [op])] * n, hashctx_batch, workers=_cpu(),
+                          timeout=120, on_result=got)
+        distinct = sorted(set(o for o in outs if o is not None))
+        return distinct if len(distinct) > 1 else None
 
     def minimise_hashseed(self, op, a, b):
         from sim.minimize import Budget, shrink_text
@@ -765,8 +776,16 @@ class Checker:
                 return None
             m = self.minimise_hashseed(op, *pair)
             if m is None:
-                self.harness.append({"hashseed_not_reproduced": [op, pair]})
-                return None
+                # not a function of the hash seed alone: does the outcome vary
+                # between fresh processes with the *same* seed (addresses, ASLR)?
+                pv = self.process_variation(op, pair[0])
+                if pv is None:
+                    self.harness.append({"hashseed_not_reproduced": [op, pair]})
+                    return None
+                return {"class": "process", "kind": "process",
+                        "signature": {"class": "process", "op": op},
+                        "op": op, "hashseed": pair[0], "distinct_outcomes": pv,
+                        "note": "outcome differs between fresh interpreters started with the same PYTHONHASHSEED (address/ASLR dependent)"}
             o, fa, fb = m
             return {"class": "hashseed", "kind": "hashseed",
                     "signature": {"class": "hashseed", "op": o},
@@ -949,6 +968,14 @@ def replay(path, log=print):
         if fa["od"] != fb["od"]:
             log(json.dumps({"op": data["op"], str(a): fa.get("outcome"), str(b): fb.get("outcome")},
                            ensure_ascii=True, default=repr)[:3000])
+            print(f"VIOLATION property={PROP} replay={path}", flush=True)
+            return report_mod.EXIT_VIOLATION
+        log("[C15] replay: not reproduced on this tree")
+        return report_mod.EXIT_OK
+    if data.get("kind") == "process":
+        pv = ck.process_variation(data["op"], data.get("hashseed", 0), n=24)
+        if pv:
+            log(f"[C15] replay: {len(pv)} distinct outcomes over 24 fresh interpreters with PYTHONHASHSEED={data.get('hashseed', 0)}")
             print(f"VIOLATION property={PROP} replay={path}", flush=True)
             return report_mod.EXIT_VIOLATION
         log("[C15] replay: not reproduced on this tree")
